@@ -441,15 +441,13 @@ def run(ctx):
     ctx.notes["distribution"] = {"games": n_games, "pairs": len(results), "model_pairs": len(model_items), "spec_pairs": len(spec_items)}
     ctx.notes["theorem_status"] = {
         "C15_complete": "proved for every legal move (FIDE spec): queen, rook, bishop, knight, king, castling, pawn pushes/double pushes/captures/promotions/e.p. captures",
-        "supporting": ["C15_restore", "C15_restored_not_rejected", "C15_undo_alternatives", "C15_complete_given_raw", "C15_complete_castling",
-                       "C15_complete_pawn", "C15_pawn_move_forms", "C15_makeMove_fields", "C15_clock_zero", "C15_premises_decidable"],
-        "C15_consistent_partial": "what knownInvalid guarantees for every reported un-move",
-        "C15_consistent_pieces": "every reported un-move of queen/rook/bishop/knight/king (no un-castling): restored position satisfies the invariant and make+fix-up gives Q back",
-        "C15_consistent_knight_king": "for knight and king un-moves the move is legal in the restored position by the FIDE spec (full consistency for these classes)",
+        "C15_consistent": "proved for every reported un-move of every class, Q in the domain WFrev (invariant, well-formed, piece counts, e.p. square stable, origin square of the e.p. double step empty): the move is legal in the restored position by the FIDE spec and make+fix-up leads back to Q; C15_consistent_invariant: the restored position satisfies the representation invariant",
         "C15_nodup": "proved for every well-formed position (WF): genMoves has no duplicates; C15_nodup_raw for the raw reverse move list",
-        "C15_consistent_nonpawn": "C15_consistent_statement for every un-move of queen/rook/bishop/knight/king that is not an un-castling: legal by the FIDE spec in the restored position and back to Q",
-        "C15_consistent_pawn": "C15_consistent_statement for every pawn un-move (push, double push, capture, e.p. capture) and every un-promotion, Q in the domain WFrev",
-        "statements_only": ["C15_consistent_statement (open: un-castlings; decided by the finder)"]}
+        "per_class": ["C15_consistent_nonpawn (queen/rook/bishop/knight/king)", "C15_consistent_pawn (pawn un-moves incl. e.p. and un-promotions)",
+                      "C15_consistent_castling", "C15_consistent_pieces", "C15_consistent_knight_king", "C15_consistent_partial (what knownInvalid guarantees)"],
+        "supporting": ["C15_restore", "C15_restored_not_rejected", "C15_undo_alternatives", "C15_complete_given_raw", "C15_complete_castling",
+                       "C15_complete_pawn", "C15_pawn_move_forms", "C15_makeMove_fields", "C15_clock_zero", "C15_premises_decidable", "C15_raw_piece_shape"],
+        "statements_only": []}
 
     if not (proof_broken or disagreements or flagged or spec_flagged or crashed):
         return
